@@ -490,14 +490,15 @@ def _writeback_case(ctx, kind_prefix: str) -> F.Outcome:
     H.freeze(day)
     lines = [f"{kind_prefix} {w} body of item {k}" for k, w in enumerate(_WB_LEADS)
              if not (w == "P1" and kind_prefix in "ox~<>")]  # that would be the todo's priority
-    zd = Z.make_zdir({"w.zo": "# write-back page\n\n" + "\n".join(lines) + "\n"}, "c07w")
+    # the first note holds carriage returns that are not followed by a line feed (no line breaks of a page)
+    zd = Z.make_zdir({"w.zo": "# write-back page\n\n- 240101#W0 progress 50%\r100% pasted\rhere\n" + "\n".join(lines) + "\n"}, "c07w")
     problems = []
     try:
         r = Z.db_create(zd, day)
         if not Z.cli_ok(r):
             problems.append(("db-create-failed-on-valid-page", {"stderr": r.err[-400:]}))
         else:
-            text = (zd / "w.zo").read_text()
+            text = Z.snapshot(zd, with_meta=False)["w.zo"]  # byte-exact (a bare \r stays a bare \r)
             res = zo.compile_text(text, name="wb.zo")
             if res["exc"] or res["nsyntax"] or res["has_errors"]:
                 problems.append(("rewritten-page-no-longer-valid", {"page": text, "nsyntax": res["nsyntax"], "exc": res["exc"]}))
@@ -510,8 +511,8 @@ def _writeback_case(ctx, kind_prefix: str) -> F.Outcome:
                     elif n["zid"] in seen:
                         problems.append(("same-zid-on-two-notes", {"zid": n["zid"]}))
                     seen.add(n["zid"])
-                if len(res["notes"]) != len(lines):
-                    problems.append(("number-of-notes-changed-by-write-back", {"expected": len(lines), "observed": len(res["notes"]), "page": text}))
+                if len(res["notes"]) != len(lines) + 1:
+                    problems.append(("number-of-notes-changed-by-write-back", {"expected": len(lines) + 1, "observed": len(res["notes"]), "page": text}))
         out.obs = H.digest([kind_prefix, [p[0] for p in problems]])
         out.nontrivial = H.digest(["wb", kind_prefix])
         if problems:
